@@ -1,4 +1,4 @@
-CONSTANTS NK = 3 KeyCls <- Cls3 KeyTyp <- Typ3 Bytes = {65, 98} L = 4 MaxEv = 8 HalfGuard = TRUE
+CONSTANTS NK = 3 KeyCls <- Cls3 KeyTyp <- Typ3 Bytes = {64, 98} L = 4 MaxEv = 8 ErrPairs <- ErrAll HalfGuard = TRUE
 SPECIFICATION Spec
 CONSTRAINT Bounded
 INVARIANTS TypeOK Delivered InBounds LengthOK NoCross CurAgree InfoOK EvOK
